@@ -125,7 +125,8 @@ fn extra_engines(prop: &str, tier: Tier, seed: u64, planned: u64, first: &std::c
         ],
         ("C02", Tier::Thorough) => vec![("c02", 4, 32, &["0.01"], false)],
         ("C03", Tier::Thorough) => vec![("c03", 4, 32, &["0.01"], false)],
-        ("C09", Tier::Thorough) => vec![("c09", 3, 6, &["0.01"], true)],
+        // (C09 has a qmiri mode, `c09`, but no interpreter plan: some scenarios of 400 symbols take seconds and
+        // others more than an hour under Miri, for reasons not yet understood; see DESIGN.md §8)
         _ => vec![],
     };
     for (mode, scenarios, seeds, rates, also_nopf) in plan {
